@@ -110,7 +110,11 @@ impl Check for C16 {
                 rec.violation("counter-account-differs", &class, &rw(&format!("counter account {} (no rule assigns one; expected {})", cp.account, want_default)), wit(json!({"output": imp.text})));
                 return;
             }
-            match &row.conv {
+            let effective_conv = if row.conversion_disabled { None } else { row.conv.as_ref() };
+            if row.conversion_disabled {
+                rec.count("row:conversion-disabled-by-rule");
+            }
+            match effective_conv {
                 None => {
                     let ok = matches!(&cp.amount, Some((v, c)) if *v == row.amount.neg() && *c == row.commodity) && cp.cost.is_none() && ap.cost.is_none();
                     if !ok {
